@@ -314,6 +314,17 @@ impl TestGraph {
             assert_eq!(id.as_u32(), i as u32);
         }
         graph.set_captures(&ids(captures));
+        // Declare the value nodes that no operator produces as the graph's inputs, as the
+        // model loaders do (`Graph::input_ids`).
+        let input_ids: Vec<NodeId> = (0..nodes.len() as u32)
+            .map(NodeId::from_u32)
+            .filter(|id| {
+                matches!(nodes[id.as_usize()], NodeSpec::Value { .. })
+                    && graph.get_source_node(*id).is_none()
+                    && !captures.contains(&id.as_u32())
+            })
+            .collect();
+        graph.set_input_ids(&input_ids);
         TestGraph { graph, log }
     }
 
